@@ -146,7 +146,7 @@ def library(rng, full):
     bz = [("C", [1.375 * math.cos(k * math.pi / 3), 1.375 * math.sin(k * math.pi / 3), 0.0]) for k in range(6)] + \
          [("H", [2.5 * math.cos(k * math.pi / 3), 2.5 * math.sin(k * math.pi / 3), 0.0]) for k in range(6)]
     mols.append(dict(name="C6H6", symbols=[s for s, _ in bz], coords=[c for _, c in bz], symmetric=True))
-    sizes = [3, 4, 5, 8, 12, 20] if not full else [3, 4, 5, 6, 7, 8, 9, 10, 11, 12, 12, 20, 33, 50]
+    sizes = [3, 4, 5, 8, 12] if not full else [3, 4, 5, 6, 7, 8, 9, 10, 11, 12, 12, 20, 33, 50]
     for n in sizes:
         while True:
             pts = set()
@@ -161,7 +161,7 @@ def library(rng, full):
         rng.shuffle(pts)
         mols.append(dict(name=f"rand{n}", symbols=[rng.choice(["C", "H", "N", "O", "H", "S"]) for _ in range(n)],
                          coords=[list(p) for p in pts]))
-    for n in ([51, 64] if not full else [51, 55, 64, 70]):
+    for n in ([51] if not full else [51, 55, 64, 70]):
         grid = [(i, j, k) for i in range(5) for j in range(5) for k in range(4)]
         rng.shuffle(grid)
         pts = [[1.5 * g[0] + rng.randint(-3, 3) / 8, 1.5 * g[1] + rng.randint(-3, 3) / 8, 1.5 * g[2] + rng.randint(-3, 3) / 8]
@@ -342,7 +342,12 @@ def eval_frame(case):
     if case["sigma"] is not None:
         kw["sn"] = case["sigma"]
     sym, co, fr, mo = case["symbols"], case["coords"], case["freqs"], case["motion"]
-    h0, g0, sp0 = run_thermo(sym, co, fr, kw)
+    base = case.get("_base")            # (not stored in replays) the base-frame evaluation shared by the motions of one case
+    if base is None:
+        base = run_thermo(sym, co, fr, kw)
+        if "_share" in case:
+            case["_share"]["_base"] = base
+    h0, g0, sp0 = base
     co1 = apply_motion(co, mo)
     sym1 = permute(sym, mo)
     h1, g1, sp1 = run_thermo(sym1, co1, fr, kw)
@@ -809,7 +814,12 @@ def corr_terms_for(ctx, add, name, sp, linear, sigma, T, freqs, light=False):
             ("urat", name, T))
 
 
-QUICK_CORR_SKIP = {"Ar", "C2H2", "BH3", "C2H4", "rand3", "rand4", "H2O~", "NH3~", "rand20", "HF"}     # thorough tier runs them all
+# quick tier: one representative per input class for the expensive oracles (the symmetry search inside every evaluation
+# costs ~n^3); the thorough tier runs every molecule
+QUICK_LOWMODES = {"H2O", "CO2", "rand5", "H2"}
+QUICK_IDENTITIES = {"C6H6", "rand8", "cluster51"}
+QUICK_UNITS = {"H", "H2", "CO2", "H2O", "rand5"}
+QUICK_CORR_SKIP = {"Ar", "C2H2", "BH3", "C2H4", "rand3", "rand4", "H2O~", "NH3~", "rand20", "HF", "NH3", "BF3", "HCN", "rand12"}     # thorough tier runs them all
 
 
 def correspondence(ctx, samples, full):
@@ -841,7 +851,7 @@ def correspondence(ctx, samples, full):
             seen.add((name, tag))
             if n > 12 and not full and (tag == "moved" or any(len(by_n.get(k[0], ())) > 12 for k in seen if k != (name, tag))):
                 continue
-            if not full and (name in QUICK_CORR_SKIP or (tag == "moved" and n > 5)):
+            if not full and (name in QUICK_CORR_SKIP or (tag == "moved" and n > 3)):
                 continue
             corr_terms_for(ctx, add, f"{name}/{tag}", sp, case["linear"], sigma, T, case["freqs"],
                            light=(not full and n > 5 and tag == "moved"))
@@ -869,12 +879,12 @@ def correspondence(ctx, samples, full):
             add(f"check_are_linear {coq_rows(atom_rows(sp3))} {qc(tol_lin)} {coq_bool(bool(sp3.is_linear()))}",
                 dict(kind="are_linear", molecule=nm, delta=dl, perm=list(pm)), ("lin", nm, dl, pm))
     for case, info in samples:
-        if len(case["symbols"]) <= 12:
+        if len(case["symbols"]) <= (5 if not full else 9):           # the decision is cubic in the number of atoms
             add(f"check_are_linear {coq_rows(atom_rows(info['sp']))} {qc(tol_lin)} {coq_bool(bool(info['sp'].is_linear()))}",
                 dict(kind="are_linear", molecule=case["molecule"]), ("lin", case["molecule"], repr(case["kw"])))
-    for w0 in (50.0, 100.0, 250.0):
-        for f in (8.125, 99.875, 100.0, 731.5, 3500.0):
-            for alpha in (1, 2, 4, 6):
+    for w0 in ((50.0, 100.0, 250.0) if full else (100.0, 250.0)):
+        for f in ((8.125, 99.875, 100.0, 731.5, 3500.0) if full else (8.125, 100.0, 3500.0)):
+            for alpha in ((1, 2, 4, 6) if full else (1, 4, 6)):
                 w = float(igm._grimme_w(omega_0=w0, freq=f, alpha=alpha))
                 add(f"check_grimme_w {qc(w0)} {qc(f)} {coq_nat(alpha)} {qc(w)}", dict(kind="grimme_w", w0=w0, f=f, alpha=alpha), ("gw", w0, f, alpha))
     # balance the shards: heaviest terms first, dealt round-robin
@@ -915,29 +925,58 @@ def direct_build(ctx):
 
 
 def proofs_step(ctx):
-    ok, info = ctx.proofs(SLICE, "C12/Props.v", "AV.C12.Props", extra_targets=["C12/Corr.vo"])
-    err_files = [f.lstrip("./") for f in re.findall(r'File "([^"]+)"', info["log_tail"])]
-    foreign = not any(f in SLICE or f in BUILD_ORDER for f in err_files)
-    if not ok and not info["hygiene"] and foreign:
-        ctx.log("make failed outside the C12 slice (shared tree); compiling the slice directly")
-        ok2, log = direct_build(ctx)
-        info["log_tail"] = log or info["log_tail"]
-        if ok2:
-            names = ctx.theorems_in("C12/Props.v")
-            assm, out = ctx.print_assumptions("AV.C12.Props", names)
-            if assm is not None:
-                info.update(build_ok=True, assumptions=assm)
-                ctx.cov["discharged"] = len(names)
-                ctx.cov["closed_theorems"] = sum(1 for t in assm.values() if "Closed under the global context" in t)
-                ctx.cov["axioms_print_assumptions"] = sorted(
-                    {ln.split(":")[0].strip() for t in assm.values() if "Closed under the global context" not in t
-                     for ln in t.split("\n") if re.match(r"^[A-Za-z_][\w.']*\s*:", ln)})
-                ctx.cov["checker_cmd"] = ("coqc 8.16.1 on each file of the C12 slice in dependency order ; coqc Print Assumptions "
-                                          "for each Theorem of C12/Props.v")
-                ok = True
-            else:
+    """hygiene + make + Print Assumptions of every theorem (as Ctx.proofs, with the assumption queries sharded over several
+    coqc processes); falls back to compiling the slice file by file when make fails outside the slice."""
+    from concurrent.futures import ThreadPoolExecutor
+    info = {"hygiene": ctx.hygiene(SLICE), "build_ok": False, "log_tail": "", "assumptions": {}}
+    ok, log = ctx.coq_make(["C12/Props.vo", "C12/Corr.vo"])
+    info["log_tail"] = log[-3000:]
+    names = ctx.theorems_in("C12/Props.v") if os.path.exists(os.path.join(COQ, "C12/Props.v")) else []
+    ctx.cov["obligations"] += len(names)
+    ctx.cov["theorems"] = ctx.cov.get("theorems", []) + names
+    ctx.cov["checker_cmd"] = ("make -f Makefile.coq C12/Props.vo C12/Corr.vo (coqc 8.16.1, full .vo build) ; coqc Print Assumptions for each "
+                              "Theorem of C12/Props.v")
+    if not ok and not info["hygiene"]:
+        err_files = [f.lstrip("./") for f in re.findall(r'File "([^"]+)"', log)]
+        if not any(f in SLICE or f in BUILD_ORDER for f in err_files):
+            ctx.log("make failed outside the C12 slice (shared tree); compiling the slice directly")
+            ok, log2 = direct_build(ctx)
+            info["log_tail"] = log2 or info["log_tail"]
+            ctx.cov["checker_cmd"] = ("coqc 8.16.1 on each file of the C12 slice in dependency order ; coqc Print Assumptions for each "
+                                      "Theorem of C12/Props.v")
+    info["build_ok"] = ok
+    if not ok or info["hygiene"] or not names:
+        return False, info
+    nsh = min(6, len(names))
+    chunks = [names[i::nsh] for i in range(nsh)]
+
+    def one(k):
+        body = "Require Import AV.C12.Props.\n" + "".join(
+            f'Goal True. idtac "@@BEGIN {n}". exact I. Qed.\nPrint Assumptions {n}.\n' for n in chunks[k])
+        rc, out = ctx.coq_run(f"Assumptions_C12_{k}", body, timeout=600)
+        if rc != 0:
+            return None, out
+        parts = re.split(r"@@BEGIN (\S+)\n", out)
+        return {parts[i]: parts[i + 1].strip() for i in range(1, len(parts) - 1, 2)}, out
+
+    assm = {}
+    with ThreadPoolExecutor(max_workers=nsh) as ex:
+        for res, out in ex.map(one, range(nsh)):
+            if res is None:
+                info["build_ok"] = False
                 info["log_tail"] = out[-3000:]
-    return ok, info
+                return False, info
+            assm.update(res)
+    if set(assm) != set(names):
+        info["log_tail"] = f"Print Assumptions answered for {sorted(assm)} instead of {names}"
+        return False, info
+    info["assumptions"] = assm
+    ctx.cov["discharged"] += len(names)
+    ctx.cov["closed_theorems"] = sum(1 for t in assm.values() if "Closed under the global context" in t)
+    ctx.cov["axioms_print_assumptions"] = sorted(
+        {ln.split(":")[0].strip() for t in assm.values() if "Closed under the global context" not in t
+         for ln in t.split("\n") if re.match(r"^[A-Za-z_][\w.']*\s*:", ln) and not ln.startswith("Axioms")})
+    return True, info
 
 
 # ================================================================================================ run
@@ -998,13 +1037,13 @@ def run(ctx):
         n = len(mol["symbols"])
         big = n > 12
         for fi, (fname, freqs) in enumerate(freq_sets(rng, mol, full).items()):
-            if not full and (fname == "high" or (big and fi > 0) or (n > 6 and fname == "lowmodes" and mol["symmetric"])):
+            if not full and (fname == "high" or (fname == "lowmodes" and mol["name"] not in QUICK_LOWMODES)):
                 continue
             # rotate through the parameter sets so that every method / state is covered
             if full:
                 k = len(psets) if n <= 4 else (8 if n <= 8 else (4 if n <= 12 else 2))
             else:
-                k = 1 if big else 2
+                k = 2 if n <= 3 else 1
             step = 3 if not full else 5          # coprime to len(psets) = 8 (quick) / 24 (thorough)
             chosen = [psets[(rot + step * j) % len(psets)] for j in range(k)]
             rot += 1
@@ -1015,10 +1054,11 @@ def run(ctx):
                 mots = motions(rng, n, n_frames if not big else 2)
                 if n > 50:
                     mots[0] = dict(q=[1, 0, 0, 0], improper=False, t=[10.0, 3.0, -7.0], perm=None)     # pure translation
+                share = {}
                 for mo in mots:
                     case = frame_case(mol, fname, freqs, kw, mo, sigma)
                     case["linear"] = mol["linear"]
-                    res = guarded(fails, "calculate_thermo_cont", eval_frame, case)
+                    res = guarded(fails, "calculate_thermo_cont", eval_frame, dict(case, _share=share, _base=share.get("_base")))
                     ctx.count("impl-frame-invariance", (mol["name"], fname, repr(kw), repr(mo), sigma), nontrivial=True,
                               sample=dict(molecule=mol["name"], n_atoms=n, freq_set=fname, kw=kw, motion=mo, sigma=sigma))
                     ctx.hist("impl-frame-invariance", f"atoms:{size_class(n)}")
@@ -1033,14 +1073,14 @@ def run(ctx):
                         samples.append((case, inf))
                 # identities and units on the base structure
                 icase = dict(case, kind="identities", motion=None)
-                if full or first:
-                    icase["light"] = (n > 6 or fi > 0) if not full else (n > 8 and not first)
+                if full or (first and (n <= 5 or mol["name"] in QUICK_IDENTITIES)):
+                    icase["light"] = (n > 5 or fi > 0) if not full else (n > 8 and not first)
                     fl = guarded(fails, "calculate_thermo_cont", eval_identities, icase)
                     ctx.count("impl-identities", (mol["name"], fname, repr(kw), sigma), nontrivial=True,
                               sample=dict(molecule=mol["name"], freq_set=fname, kw=kw, sigma=sigma))
                     for key, what in (fl or []):
                         fails.add(key, what, icase)
-                if not big and first and (full or (fi == 0 and n <= 8)):
+                if not big and first and (full or (fi == 0 and mol["name"] in QUICK_UNITS)):
                     ucase = dict(case, kind="units", motion=None)
                     fl = guarded(fails, "calculate_thermo_cont", eval_units, ucase)
                     ctx.count("impl-number-vs-unit", (mol["name"], fname, repr(kw)), nontrivial=True, sample=dict(molecule=mol["name"], kw=kw))
@@ -1058,7 +1098,7 @@ def run(ctx):
         fsets = freq_sets(rng, mol, full)
         freqs = fsets["mixed"]
         kw = dict(temp=298.15, ss="1M", lfm_method="grimme")
-        reps = (1 if n > 6 else 2) if not full else 5
+        reps = 1 if not full else 5
         mlist = [("rigid", m) for m in motions(rng, n, reps, with_perm=False)]
         for _ in range(reps):
             p = list(range(n))
@@ -1087,11 +1127,11 @@ def run(ctx):
         if mol is None:
             continue
         n = len(mol["symbols"])
-        if n <= 4 or (full and n <= 5):
+        if n <= 3 or (full and n <= 5):
             perms = [list(p) for p in itertools.permutations(range(n))][1:]
         else:
             perms = [list(range(k, n)) + list(range(k)) for k in range(1, n)]              # every atom first once
-            while len(perms) < (10 if not full else 40):
+            while len(perms) < ((n + 2) if not full else 40):
                 p = list(range(n))
                 rng.shuffle(p)
                 perms.append(p)
@@ -1104,7 +1144,7 @@ def run(ctx):
                 observed.add(key)
                 fails.add(key, what, case)
     # run-time Config changes act like the keywords; a re-used species follows its geometry
-    for name, fname in (("H2O", "lowmodes"), ("CO2", "lowmodes"), ("rand5", "lowmodes"), ("Ar", "none")) + \
+    for name, fname in (("H2O", "lowmodes"), ("Ar", "none")) + (() if not full else (("CO2", "lowmodes"), ("rand5", "lowmodes"))) + \
             ((("C6H6", "mixed"), ("rand12", "lowmodes"), ("cluster51", "mixed")) if full else ()):
         mol = by_name.get(name)
         if mol is None:
@@ -1162,7 +1202,7 @@ def run(ctx):
             for key, what in (fl or []):
                 fails.add(key, what, case)
     for seq in sequences(mols):
-        for kw in (dict(temp=298.15, ss="1M", lfm_method="grimme"), dict(temp=500.0, ss="1atm", lfm_method="igm")):
+        for kw in (dict(temp=298.15, ss="1M", lfm_method="grimme"), dict(temp=500.0, ss="1atm", lfm_method="igm"))[:2 if full else 1]:
             mol = by_name[seq["molecule"]]
             case = dict(seq, kw=kw, freqs=freq_sets(rng, mol, full)["mixed"])
             fl = guarded(fails, "calculate_thermo_cont", eval_sequence, case)
